@@ -175,7 +175,7 @@ def run(tier):
     sd = common.seed()
     consts = dict(TNs=Raw("{8}"), Hs=Raw("{1,2,3}"), Fracs=Raw("{<<0,1>>,<<1,4>>,<<1,2>>,<<3,4>>}"), EmitCases=True)
     if tier == "thorough":
-        consts.update(TNs=Raw("{7, 10}"), Fracs=Raw("{<<0,1>>,<<1,8>>,<<1,4>>,<<1,2>>,<<3,4>>,<<7,8>>}"))
+        consts.update(TNs=Raw("{7, 9}"), Fracs=Raw("{<<0,1>>,<<1,4>>,<<1,2>>,<<3,4>>,<<1,3>>,<<2,3>>}"))     # eighths overflow 32 bits with the degree-5 record
     res = tlc.run_model("Timeshift", f"{PID}_model", constants=consts, invariants=INV, timeout=3600)
     if res.violated:
         raise tlc.TLCError(f"Timeshift.tla violates {res.violated}")
